@@ -43,7 +43,7 @@ SPELL_FILE = [s for s in SPELL_DIR if s[0] in ("abs", "rel", "dot", "dotdot", "d
 def BOUNDS(tier):
     q = tier == "quick"
     return {"creators": "TorrentFile, TorrentAssembler v2/hybrid" + ("" if q else ", TorrentFileV2, TorrentFileHybrid"),
-            "shapes": "single, flat2, nested3", "sizes": "each in [0, K*P], K=2 (nested3: 1), P=16 KiB",
+            "shapes": "single, flat2, nested3, case2 (names equal after case folding)", "sizes": "each in [0, K*P], K=2 (nested3: 1), P=16 KiB",
             "spellings": [s[0] for s in SPELL_DIR], "progress": "0/1/2 rotated over the spellings",
             "outside": "symlinks, Windows separators, other path grammars, more files"}
 
@@ -52,10 +52,12 @@ def jobs(tier):
     q = tier == "quick"
     out = []
     for which in ["1", "2a", "3a"] + ([] if q else ["2c", "3c"]):
-        for shape, K in (("single", 2), ("flat2", 2), ("nested3", 1)):
+        for shape, K in (("single", 2), ("flat2", 2), ("nested3", 1), ("case2", 1)):
             spells = SPELL_FILE if shape == "single" else SPELL_DIR
             for i, sp in enumerate(spells):
                 if q and shape == "nested3" and sp[0] not in ("rel", "traildot", "copy", "cwd-is-root"):
+                    continue
+                if shape == "case2" and sp[0] not in ("rel", "copy"):
                     continue
                 if q and which != "1" and shape == "flat2" and sp[0] in ("dbltrail", "dblsep", "dot"):
                     continue
